@@ -262,9 +262,11 @@ Guards == {
   "responder.noise.len",       \* craftResponse: the Noise library rejects short messages (no slicing in the responder)
   "dnsreg.payload_nil",        \* processRequest reads RegistrationPayload through a nil-safe getter
   "dtls.connect.addr_getters", \* dtls.Connect reads SrcAddr4 / SrcAddr6 through nil-safe getters
-  "dnat.addr_family"           \* dnat.AddEntry: both addresses of one family, lengths checked by the serialiser
+  "dnat.addr_family",          \* dnat.AddEntry: both addresses of one family, lengths checked by the serialiser
+  "regproc.selector.unlock"    \* processBdReq: EVERY return - also the ones after a failed v4 or v6 phantom selection - releases the
+                               \* selector read lock (a lock left behind: the next reload and every registration after it HANG)
 }
-HangGuards == {"dns.ptr_limit"}
+HangGuards == {"dns.ptr_limit", "regproc.selector.unlock"}
 
 RegistrarBd(e, r) == \/ e = "api" /\ HttpEnvelopeOK(r) /\ r.endpoint = "bd"
                      \/ e = "dnsreg" /\ r.source = "bddns"
@@ -298,6 +300,9 @@ Trigger(g, e, r) ==
     [] g = "dnsreg.payload_nil"    -> e = "dnsreg" /\ r.payload = "absent"
     [] g = "dtls.connect.addr_getters" -> e = "dtls.connect" /\ r.ttype = "dtls" /\ r.pbytes \in {"dtls_noaddrs", "empty", "nil"}
     [] g = "dnat.addr_family"      -> e = "dtls.connect" /\ r.ttype = "dtls" /\ r.pbytes \in {"dtls_badaddrs", "dtls_noaddrs"}
+    \* a phantom selection is attempted and fails: the client names a generation the registrar does not have
+    [] g = "regproc.selector.unlock" -> e \in {"api", "dnsreg", "regproc"} /\ RegistrarBd(e, r) /\ HasPayload(r)
+                                        /\ r.gen \in {"unknown", "max"} /\ (r.v4 = "true" \/ r.v6 = "true")
     [] OTHER                       -> FALSE
 
 Triggers(e, r) == {g \in Guards : Trigger(g, e, r)}
